@@ -22,6 +22,8 @@ pub struct Intrude {
     pub client: Uuid,
     pub version: Uuid,
     pub data: Vec<u8>,
+    /// Some(v): instead of uploading a version, the other instance stores a snapshot for version v (stamped now)
+    pub snap: Option<Uuid>,
     pub seen: usize,
     pub fired: bool,
     pub failed: bool,
@@ -88,18 +90,25 @@ impl Storage for LogStore {
                 Some(i) => {
                     let now = i.seen;
                     i.seen += 1;
-                    if !i.fired && now == i.at_begin { i.fired = true; Some((i.client, i.version, i.data.clone())) } else { None }
+                    if !i.fired && now == i.at_begin { i.fired = true; Some((i.client, i.version, i.data.clone(), i.snap)) } else { None }
                 }
                 None => None,
             }
         };
-        if let Some((c, v, d)) = fire {
+        if let Some((c, v, d, snap)) = fire {
             let r = (|| -> anyhow::Result<()> {
                 let mut t = self.inner.txn(c)?;
-                if t.get_client()?.is_none() {
-                    t.new_client(Uuid::nil())?;
+                match snap {
+                    Some(sv) => {
+                        t.set_snapshot(Snapshot { version_id: sv, timestamp: chrono::Utc::now(), versions_since: 0 }, d)?;
+                    }
+                    None => {
+                        if t.get_client()?.is_none() {
+                            t.new_client(Uuid::nil())?;
+                        }
+                        t.add_version(v, Uuid::nil(), d)?;
+                    }
                 }
-                t.add_version(v, Uuid::nil(), d)?;
                 t.commit()?;
                 Ok(())
             })();
